@@ -33,7 +33,12 @@ def mk(op, **kw) -> dict:
     return c
 
 
+BADNAME = "<bad>"     # IRGraph!BadName: a name the value's backing tensor refuses to take (here: not a string)
+
+
 def _pyname(name):
+    if name == BADNAME:
+        return 7
     return None if name == NONAME else name
 
 
@@ -42,6 +47,8 @@ def _specname(name):
 
 
 class Universe:
+    strict_consts = False     # True (C01/C06 replays): every second constant is backed by a proto tensor
+
     def __init__(self, ng: int, names, consts):
         self.values: list = []
         self.nodes: list = []
@@ -57,7 +64,15 @@ class Universe:
         for nm, c in zip(names, consts):
             v = ir.Value(name=_pyname(nm))
             if c:
-                v.const_value = ir.Tensor(np.array([1.0], dtype=np.float32), name=_pyname(nm))
+                # every second constant is backed by a proto tensor (what a loaded model holds): its name setter
+                # writes into the TensorProto and refuses anything that is not a string
+                if self.strict_consts and len(self.values) % 2:
+                    import onnx
+
+                    v.const_value = ir.serde.TensorProtoTensor(onnx.numpy_helper.from_array(
+                        np.array([1.0], dtype=np.float32), name=_pyname(nm)))
+                else:
+                    v.const_value = ir.Tensor(np.array([1.0], dtype=np.float32), name=_pyname(nm))
                 self._tid[id(v.const_value)] = f"T{len(self.values) + 1}"
             self._add_value(v)
 
